@@ -151,7 +151,7 @@ func (h *DirHandler) SetSent(MID string, rejected bool) {
 	newPath := path.Join(h.MBoxPath, DIR_SENT, MID+Ext)
 
 	if err := os.Rename(oldPath, newPath); err != nil {
-		log.Fatalf("Unable to move %s to %s: %s", oldPath, newPath, err)
+		log.Printf("Unable to move %s to %s: %s", oldPath, newPath, err)
 	}
 }
 
